@@ -133,6 +133,30 @@ class ValueLV:
 # ---------------------------------------------------------------------------- entry
 def ev_call(eng, node, st):
     fn = node.func
+    if isinstance(fn, ast.Call) and isinstance(fn.func, ast.Name) and fn.func.id == "type" and len(fn.args) == 1 \
+            and len(node.args) == 1 and not node.keywords:
+        # type(x)(v): a value of x's own type built from v (used as "zero of the same type")
+        outs = []
+        for s, vals in eng.ev_seq([fn.args[0], node.args[0]], st):
+            if isinstance(vals, Raise):
+                outs.append((s, vals))
+                continue
+            x, v = eng.refine_obj(vals[0], s), vals[1]
+            k = x.ty.kind
+            if k in ("int", "bool"):
+                outs.append((s, eng.coerce(v, INT)[0]))
+            elif k in ("real", "xreal"):
+                outs.append((s, eng.coerce(v, k == "real" and REAL or XREAL)[0]))
+            elif k == "obj":
+                # a number of unknown numeric type: int(v) / float(v) have the same numeric value
+                outs += eng.implicit(s, "TypeError", z3.Not(eng.is_numeric_obj(x)),
+                                     lambda s2, v=v: [(s2, SV(XREAL, S.to_xr(v)))])
+            else:
+                hook = eng.reg.specfuns.get("type_call_" + k)
+                if hook is None:
+                    raise Unsupported("type(x)(v) for %r" % (x.ty,))
+                outs += hook(eng, s, x, v)
+        return outs
     if isinstance(fn, ast.Name):
         return call_name(eng, node, fn.id, st)
     if isinstance(fn, ast.Attribute):
@@ -280,8 +304,9 @@ def spec_call(eng, node, name, st):
         for part in S._split_top(decl):
             n, t = part.split(":", 1)
             ty = S.parse_type(t.strip())
-            c = z3.Const("q_%s_%d" % (n.strip(), S._fresh[0]), S.sort_of(ty))
-            S._fresh[0] += 1
+            # deterministic bound-variable names: the same clause evaluated twice in the same state
+            # yields the *same* z3 term (hash-consing), so it can be discharged syntactically
+            c = z3.Const("q_%s" % n.strip(), S.sort_of(ty))
             vars_.append(c)
             env[n.strip()] = SV(ty, c)
         body = eng.spec_eval(node.args[1], st, env=env)
@@ -296,6 +321,7 @@ def spec_call(eng, node, name, st):
         return [(st, eng.spec_value(text, st, env=env))]
     if name in eng.reg.specfuns:
         vals = [eng.spec_value(a, st) for a in node.args]
+        eng._spec_state = st
         r = eng.reg.specfuns[name](eng, *vals)
         return [(st, r)]
     if name in SPEC_BUILTINS:
@@ -479,8 +505,7 @@ def _sb_map_del(eng, st, m, k):
 def _sb_mapeq(eng, st, a, b):
     """Extensional equality of two ordered maps: same key order, same value on every key
     (values stored for absent keys are junk and do not count)."""
-    k = z3.Const("q_mk_%d" % S._fresh[0], S.elem_sort(a.ty.key))
-    S._fresh[0] += 1
+    k = z3.Const("q_mk", S.elem_sort(a.ty.key))
     ka, kb = eng.map_keys(a), eng.map_keys(b)
     return mk_bool(z3.And(ka == kb, z3.ForAll([k], z3.Implies(z3.Contains(ka, z3.Unit(k)),
                                                               z3.Select(eng.map_vals(a), k) == z3.Select(eng.map_vals(b), k)))))
@@ -566,7 +591,12 @@ def _sb_bval(eng, st, x):
     return eng.coerce(x, BOOL)[0]
 
 
-SPEC_BUILTINS = {"bval": _sb_bval, "isdict": _sb_isdict, "dlen": _sb_dlen, "dkeys": _sb_dkeys, "dhas": _sb_dhas, "dget": _sb_dget,
+def _sb_allocated(eng, st, r):
+    """the reference denotes an object allocated before now (not null)"""
+    return mk_bool(z3.And(r.t > 0, r.t < eng.A0 + st.nalloc))
+
+
+SPEC_BUILTINS = {"allocated": _sb_allocated, "bval": _sb_bval, "isdict": _sb_isdict, "dlen": _sb_dlen, "dkeys": _sb_dkeys, "dhas": _sb_dhas, "dget": _sb_dget,
                  "isinst": _sb_isinst, "indexof": _sb_indexof, "mapeq": _sb_mapeq, "has": _sb_has, "get": _sb_get, "contains": _sb_contains, "nodup": _sb_nodup, "rm": _sb_rm,
                  "map_put": _sb_map_put, "map_del": _sb_map_del, "seq1": _sb_seq1, "asref": _sb_asref,
                  "subseq": _sb_subseq, "empty_like": _sb_empty_like, "map_empty": _sb_map_empty,
@@ -1105,9 +1135,14 @@ def dispatch(eng, static, name, recv, s, cont):
                 fld = eng.field_key(c, b.value.attr)
             key = ("trivial", ast.dump(b), fld)
         groups.setdefault(key, []).append((c, f))
-    if len(groups) <= 1:
-        f = eng.table.resolve(static, name)
-        return cont(f, recv, s)
+    if len(groups) == 1:
+        members = list(groups.values())[0]
+        classes = sorted([c for c, _ in members], key=lambda c: len(eng.table.mro(c)))
+        if static in classes or not eng.is_abstract(static):
+            return cont(eng.table.resolve(static, name), recv, s)
+        return cont(members[0][1], SV(REF(classes[0]), recv.t), s)
+    if not groups:
+        return cont(eng.table.resolve(static, name), recv, s)
     outs = []
     for key, members in groups.items():
         classes = [c for c, _ in members]
@@ -1457,6 +1492,13 @@ def havoc_paths(eng, paths, env, st):
             for key in list(st.heap):
                 arr = st.heap[key]
                 st.heap[key] = S.fresh("Hh_" + key, arr.sort())
+                if key in eng.reg.immutable_fields:
+                    # fields that are only written by constructors: unchanged for every object that
+                    # existed before the callback
+                    r = z3.Int("imm_r")
+                    st.assume(z3.ForAll([r], z3.Implies(z3.And(0 < r, r < eng.A0 + st.nalloc),
+                                                        z3.Select(st.heap[key], r) == z3.Select(arr, r)),
+                                        patterns=[z3.Select(st.heap[key], r)]))
             st.notes.append("havoc heap.*")
             continue
         if p.startswith("heap."):
@@ -1507,6 +1549,8 @@ def apply_contract(eng, c, f, recv, args, kwargs, st):
             havoc_paths(eng, paths, env, s3)
             for cl in c.exc_ensures:
                 s3.assume(eng.spec_eval(cl, s3, old=pre, env=spec_env))
+        if c.on_raise != "unchanged":
+            apply_preserves(eng, c, st.env, s3, pre)
         s3.notes.append("%s raised %s" % (c.qual, exc))
         outs.append((s3, Raise(exc, origin="callee:" + c.qual, site="call:%s#%d" % (c.qual, k))))
         if (exc, cond) in c.raises:
@@ -1533,11 +1577,32 @@ def apply_contract(eng, c, f, recv, args, kwargs, st):
         for o, cls, fn in resolve_path(eng, path, env, pre):
             val = eng.spec_value(expr, s2, old=pre, env=spec_env)
             eng.store_field(s2, o.t, cls, fn, val)
-    for cl in c.ensures:
+    for cl in list(c.ensures) + list(c.assumed_ensures):
         s2.assume(eng.spec_eval(cl, s2, old=pre, result=res, env=spec_env))
+    apply_preserves(eng, c, st.env, s2, pre)
+    if "heap.*" in c.modifies:
+        for gname, gfn in eng.reg.global_invs:
+            s2.assume(gfn(eng, s2))
     s2.notes.append("called %s" % c.qual)
     outs.append((s2, res if res is not None else mk_none()))
     return outs
+
+
+def apply_preserves(eng, c, caller_env, s_after, pre):
+    """Rely conditions of a callback contract for the objects in the caller's scope."""
+    for cls, clause in c.preserves:
+        seen = []
+        for n, v in caller_env.items():
+            if n.startswith("$") or v is None or v.ty.kind != "ref" or v.t is None:
+                continue
+            vc = eng.self_class if (n == "self" and eng.self_class) else v.ty.cls
+            if not eng.table.is_subclass(vc, cls):
+                continue
+            if any(v.t.eq(t) for t in seen):
+                continue
+            seen.append(v.t)
+            x = SV(REF(vc), v.t)
+            s_after.assume(eng.spec_eval(clause, s_after, old=pre, env={"x": x}))
 
 
 def construct(eng, cname, args, kwargs, st):
